@@ -48,6 +48,8 @@ func createASTTypeExpr(pkg string, t types.Type, varPool *VarPool, imports map[s
 					IsDefaultName: newPkgName == pkgName,
 					IsUsed:        false, // Will be marked during code generation
 				}
+				// The package must be referred to by the name it is imported under
+				pkgName = newPkgName
 			}
 
 			return instantiateTypeExpr(pkg, &ast.SelectorExpr{
@@ -75,6 +77,8 @@ func createASTTypeExpr(pkg string, t types.Type, varPool *VarPool, imports map[s
 					IsDefaultName: newPkgName == pkgName,
 					IsUsed:        false, // Will be marked during code generation
 				}
+				// The package must be referred to by the name it is imported under
+				pkgName = newPkgName
 			}
 
 			return instantiateTypeExpr(pkg, &ast.SelectorExpr{
